@@ -277,9 +277,18 @@ func (r *c10Run) step(sym c10Sym) bool {
 		r.fail(fmt.Sprintf("%s-event/%s/to-%s", sym2, sym.Op, role), fmt.Sprintf("after %v connection c%d received events [%s] but the model expects [%s]", sym, d, evKey(got[d]), evKey(want[d])))
 		return false
 	}
-	for d := range want {
-		r.c.Class(fmt.Sprintf("%s→%d events", sym.Op, len(want[d])))
+	pattern := ""
+	for d := 0; d < r.k; d++ {
+		role := "o"
+		if d == sym.Conn {
+			role = "w" // the writer itself
+		}
+		if !r.open[d] {
+			role = "x"
+		}
+		pattern += fmt.Sprintf("%s%d", role, len(want[d]))
 	}
+	r.c.Class(fmt.Sprintf("%s(%s)→%s", sym.Op, sym.Ch, pattern))
 	return true
 }
 
@@ -359,7 +368,7 @@ func init() {
 	fw.Register(&fw.Check{
 		ID:    "C10",
 		Level: "model_checking",
-		Rule:  "every history of length 3 with 2 verified controller connections (quick) / length 4 with 2 and length 3 with 3 connections (thorough) over: subscribe, unsubscribe, changing write, non-changing write, a PUT writing two characteristics, application set (changing / non-changing), close, reconnect — on an observable bool of one accessory, an observable int of another and a characteristic without event permission; real transport over TCP with real pair-verify, fresh system per history. After EVERY event a barrier request on every open connection collects the EVENT messages that arrived; they must equal the reference model (subscription relation × value × open set): exactly one EVENT with the new value per subscribed other connection, none to the originator, to unsubscribed or closed ones, none for unchanged values or characteristics without event permission. A mismatch is re-checked after 20 ms and 500 ms before it counts. states = histories executed",
+		Rule:  "every history of length 3 with 2 verified controller connections (quick) / length 4 with 2 and length 3 with 3 connections (thorough) over: subscribe, unsubscribe, changing write, non-changing write, a PUT writing two characteristics, application set (changing / non-changing), close, reconnect — on an observable bool of one accessory, an observable int of another and a characteristic without event permission; real transport over TCP with real pair-verify, fresh system per history. After EVERY event a barrier request on every open connection collects the EVENT messages that arrived; they must equal the reference model (subscription relation × value × open set): exactly one EVENT with the new value per subscribed other connection, none to the originator, to unsubscribed or closed ones, none for unchanged values or characteristics without event permission. A mismatch is re-checked after 20 ms and 500 ms before it counts. states = histories executed, distinct_nontrivial = distinct (event, characteristic, per-connection expected EVENT count pattern) classes",
 		Run:   c10Run1,
 		Replay: func(c *fw.Ctx, raw json.RawMessage) {
 			var cas c10Case
